@@ -71,6 +71,7 @@ ACommitAddr   == \E a \in HsActs : Commits(a) /\ xf.req = 5 /\ DoStep(a)
 ACommitCfg    == \E a \in HsActs : Commits(a) /\ xf.req = 9 /\ DoStep(a)
 AAckStatus    == \E a \in HsActs : Commits(a) /\ xf.req \notin {5, 9} /\ DoStep(a)
 AAckOther     == \E a \in HsActs : Kind(a) = "ack" /\ ctx.ep # 0 /\ DoStep(a)
+AForeignAck   == \E a \in HsActs : Kind(a) = "foreign_ack" /\ DoStep(a)
 AEpTok        == \E a \in TokActs : Kind(a) \in {"in_ep", "in_none", "out_ep_tok", "out_none_tok"} /\ DoStep(a)
 AEpData       == \E a \in DataActs : Kind(a) \in {"out_ep_data", "out_none_data"} /\ DoStep(a)
 AForeign      == \E a \in TokActs : Kind(a) = "foreign" /\ DoStep(a)
@@ -80,7 +81,7 @@ AReset        == DoStep(Other("reset"))
 
 MCNext == \/ ASetupTok \/ ASetupGood \/ ASetupBad \/ AIn0Data \/ AIn0Status \/ AIn0Other
           \/ AOut0Tok \/ AOut0Status \/ AOut0Other \/ AAckData \/ ACommitAddr \/ ACommitCfg \/ AAckStatus
-          \/ AAckOther \/ AEpTok \/ AEpData \/ AForeign \/ AStrayData \/ ANoise \/ AReset
+          \/ AAckOther \/ AForeignAck \/ AEpTok \/ AEpData \/ AForeign \/ AStrayData \/ ANoise \/ AReset
 MCSpec == Init /\ [][MCNext]_vars
 
 (* For behaviour generation (-simulate): a bound on the length is given on the command line. *)
